@@ -43,6 +43,28 @@ pub struct Case {
     pub source: SourcePlan,
     pub preset: String,
     pub entropy_seed: u64,
+    /// how the file the next edit starts from ends after `%%EOF` (all legal): variant = tail % 5
+    /// (0 as written, 1 no end-of-line at all, 2 CR LF, 3 CR, 4 two extra LF); tail >= 5 applies it
+    /// after every edit as well, not only to the base
+    #[serde(default)]
+    pub tail: u8,
+}
+
+/// Rewrite what follows the final `%%EOF` (nothing else moves, so every offset stays valid).
+fn retail(buf: &mut Vec<u8>, tail: u8) {
+    let v = tail % 5;
+    if v == 0 || !buf.ends_with(b"%%EOF\n") && !buf.ends_with(b"%%EOF") && !buf.ends_with(b"%%EOF\r\n") {
+        return;
+    }
+    while matches!(buf.last(), Some(b'\n') | Some(b'\r')) {
+        buf.pop();
+    }
+    match v {
+        1 => {}
+        2 => buf.extend_from_slice(b"\r\n"),
+        3 => buf.push(b'\r'),
+        _ => buf.extend_from_slice(b"\n\n\n"),
+    }
 }
 
 const VALUES: [&str; 14] = [
@@ -97,7 +119,10 @@ fn gen_case(cs: u64) -> Case {
         edits.truncate(2);
     }
     let source = if r.chance(1, 2) { gen_source_plan(&mut r, 1, 60, 4096) } else { SourcePlan::default() };
-    Case { program, cfg, edits, source, preset: r.pick(&["default", "tolerant", "strict"]).to_string(), entropy_seed: r.next_u64() }
+    let preset = r.pick(&["default", "tolerant", "strict"]).to_string();
+    let entropy_seed = r.next_u64();
+    let tail = if r.chance(1, 2) { 0 } else { r.below(10) as u8 };
+    Case { program, cfg, edits, source, preset, entropy_seed, tail }
 }
 
 /// ISO 32000-1 §7.9.2.2 text-string decoding, independent of the library's.
@@ -148,6 +173,8 @@ fn exec_inner(c: &Case, out: &mut Outcome) {
             return;
         }
     }
+    retail(&mut cur, c.tail);
+    out.bump(&format!("base_tail.{}", c.tail % 5), 1);
     // model
     let field_names: Vec<String> = c.program.ops.iter().filter_map(|o| if let DocOp::Field { name, kind: 0, .. } = o { Some(name.clone()) } else { None }).collect();
     let mut fields: BTreeMap<String, String> = c.program.ops.iter().filter_map(|o| if let DocOp::Field { name, value, kind: 0, .. } = o { Some((name.clone(), value.clone())) } else { None }).collect();
@@ -454,6 +481,9 @@ fn exec_inner(c: &Case, out: &mut Outcome) {
             }
         }
         cur = new;
+        if c.tail >= 5 {
+            retail(&mut cur, c.tail);
+        }
     }
     out.nontrivial = applied >= 1;
     out.bump("edits_applied", applied);
